@@ -8,13 +8,20 @@
  * stdin: one sequence per line (formats below); stdout: one line per sequence,
  * one token per operation "<result>@<capacity after the operation>".
  *
- *   vec <stride> <nops> <op>...      stride 8 or 24 (first word of an element is its value)
+ *   vec <stride> <alloc> <nops> <op>...   stride 8 or 24 (first word of an element is its value)
+ *       <alloc>: "-" = the default callbacks of vector_init (calloc/realloc/free of libc);
+ *                "s" or "s:<size>,<size>..." = STRICT callbacks through vector_init_impl: realloc hands out a
+ *                fresh block filled with 0xa5, copies exactly <oldsize> bytes (what arena_realloc's slow path
+ *                does), poisons and frees the old block; requests of exactly the listed byte sizes fail
+ *                (allocation-failure injection).  A callback told an old size larger than the block it
+ *                allocated marks the capacity token with "!".
  *       ops: push:<x> calloc reserve:<n> pop clear first last sort len dump
  *       results: E | I:<index>:<value> | N | U | Z:<n> | L:<v,v,...>
  *       first token of the answer: H:<sizeof(struct vector)>
- *   buf <init_size> <nops> <op>...
- *       ops: puts:<hex> putc:<byte> printf:<hex> huge:<n> str reset pop:<n> cmp:<hex> len dump lines
- *       results: Z:<n> | B:<hex> | N | U | LN:<hex>,<hex>,...   ("-" = empty string)
+ *   buf <init_size> <alloc> <nops> <op>...   (<alloc> as above, through buffer_alloc_impl)
+ *       ops: puts:<hex> putc:<byte> printf:<hex> huge:<n> str reset pop:<n> cmp:<hex> len dump lines gline
+ *       results: Z:<n> | B:<hex> | N | U | LN:<hex>,<hex>,... | G:<hex>   ("-" = empty string)
+ *       gline = ONE buffer_getline call on an iterator that lives as long as the sequence (zeroed at its start)
  *       first token: A:<capacity after buffer_alloc> or A:NULL
  */
 #include <inttypes.h>
@@ -36,6 +43,123 @@
 #undef callback_alloc
 #undef callback_realloc
 #undef callback_free
+
+/* ---- strict allocator callbacks: every block carries its true size in front ---- */
+#define KS_HDR 16
+static size_t	ks_fail_sizes[64];
+static size_t	ks_nfail_sizes;
+static int	ks_oldsize_violation;
+
+static void
+ks_parse_alloc(const char *spec)
+{
+	ks_nfail_sizes = 0;
+	ks_oldsize_violation = 0;
+	if (spec[0] != 's' || spec[1] != ':')
+		return;
+	spec += 2;
+	while (*spec != '\0' && ks_nfail_sizes < sizeof(ks_fail_sizes) / sizeof(ks_fail_sizes[0])) {
+		char *end;
+		ks_fail_sizes[ks_nfail_sizes++] = (size_t)strtoull(spec, &end, 10);
+		spec = *end == ',' ? end + 1 : end;
+	}
+}
+
+static int
+ks_size_fails(size_t sz)
+{
+	size_t i;
+
+	if (sz > ((size_t)1 << 50))
+		return 1;
+	for (i = 0; i < ks_nfail_sizes; i++)
+		if (ks_fail_sizes[i] == sz)
+			return 1;
+	return 0;
+}
+
+static void *
+strict_block(size_t sz, int fill)
+{
+	unsigned char *p = malloc(KS_HDR + sz);
+
+	if (p == NULL)
+		abort();
+	memcpy(p, &sz, sizeof(sz));
+	memset(p + KS_HDR, fill, sz);
+	return p + KS_HDR;
+}
+
+static size_t
+strict_size(const void *ptr)
+{
+	size_t sz;
+
+	memcpy(&sz, (const unsigned char *)ptr - KS_HDR, sizeof(sz));
+	return sz;
+}
+
+static void
+strict_release(void *ptr)
+{
+	if (ptr == NULL)
+		return;
+	memset(ptr, 0xee, strict_size(ptr));
+	free((unsigned char *)ptr - KS_HDR);
+}
+
+static void *
+strict_calloc(size_t nmemb, size_t size, void *arg)
+{
+	(void)arg;
+	if (ks_size_fails(nmemb * size))
+		return NULL;
+	return strict_block(nmemb * size, 0);
+}
+
+static void *
+strict_alloc(size_t size, void *arg)
+{
+	(void)arg;
+	if (ks_size_fails(size))
+		return NULL;
+	return strict_block(size, 0xa5);
+}
+
+static void *
+strict_realloc(void *ptr, size_t oldsize, size_t newsize, void *arg)
+{
+	void *p;
+
+	(void)arg;
+	if (ks_size_fails(newsize))
+		return NULL;
+	p = strict_block(newsize, 0xa5);
+	if (ptr != NULL) {
+		size_t have = strict_size(ptr);
+
+		if (oldsize > have) {
+			ks_oldsize_violation = 1;
+			oldsize = have;
+		}
+		memcpy(p, ptr, oldsize < newsize ? oldsize : newsize);
+		strict_release(ptr);
+	} else if (oldsize != 0) {
+		ks_oldsize_violation = 1;
+	}
+	return p;
+}
+
+static void
+strict_free(void *ptr, size_t size, void *arg)
+{
+	(void)arg;
+	if (ptr != NULL && size > strict_size(ptr))
+		ks_oldsize_violation = 1;
+	strict_release(ptr);
+}
+
+static int ks_strict;
 
 struct big {
 	int64_t	val;
@@ -113,7 +237,9 @@ puthex(const unsigned char *p, size_t n)
 
 #define VEC_SEQ(T, GETV, SETV, CMP) do {					\
 	VECTOR(T) v;								\
-	if (VECTOR_INIT(v)) { printf("INITFAIL"); break; }			\
+	if (ks_strict ? vector_init_impl((void **)&v, sizeof(*v), &(struct vector_callbacks){	\
+	    .calloc = strict_calloc, .realloc = strict_realloc, .free = strict_free })		\
+	    : VECTOR_INIT(v)) { printf("INITFAIL"); break; }			\
 	printf("H:%zu", sizeof(struct vector));					\
 	for (i = 0; i < nops; i++) {						\
 		const char *op = ops[i];					\
@@ -161,7 +287,7 @@ puthex(const unsigned char *p, size_t n)
 		} else {							\
 			printf("BAD");						\
 		}								\
-		printf("@%zu", ptov(v)->vc_siz);				\
+		printf("@%zu%s", ptov(v)->vc_siz, ks_oldsize_violation ? "!" : "");	\
 	}									\
 	VECTOR_FREE(v);								\
 } while (0)
@@ -188,9 +314,12 @@ static void
 buf_seq(size_t init_size, char **ops, size_t nops)
 {
 	struct buffer *bf;
+	struct buffer_getline git;
 	size_t i;
 
-	bf = buffer_alloc(init_size);
+	memset(&git, 0, sizeof(git));
+	bf = ks_strict ? buffer_alloc_impl(init_size, &(struct buffer_callbacks){
+	    .alloc = strict_alloc, .realloc = strict_realloc, .free = strict_free }) : buffer_alloc(init_size);
 	if (bf == NULL) {
 		printf("A:NULL");
 		return;
@@ -229,7 +358,7 @@ buf_seq(size_t init_size, char **ops, size_t nops)
 		} else if (is(op, "str")) {
 			char *s = buffer_str(bf);
 			if (s == NULL) printf("N");
-			else { printf("B:"); puthex((unsigned char *)s, strlen(s)); free(s); }
+			else { printf("B:"); puthex((unsigned char *)s, strlen(s)); if (ks_strict) strict_release(s); else free(s); }
 		} else if (is(op, "reset")) {
 			buffer_reset(bf); printf("U");
 		} else if (is(op, "pop")) {
@@ -248,6 +377,10 @@ buf_seq(size_t init_size, char **ops, size_t nops)
 		} else if (is(op, "dump")) {
 			printf("B:");
 			puthex((const unsigned char *)buffer_get_ptr(bf), buffer_get_len(bf));
+		} else if (is(op, "gline")) {
+			const char *line = buffer_getline(bf, &git);
+			if (line == NULL) printf("N");
+			else { printf("G:"); puthex((const unsigned char *)line, strlen(line)); }
 		} else if (is(op, "lines")) {
 			struct buffer_getline it;
 			const char *line;
@@ -262,8 +395,10 @@ buf_seq(size_t init_size, char **ops, size_t nops)
 		} else {
 			printf("BAD");
 		}
-		printf("@%zu", buffer_get_size(bf));
+		printf("@%zu%s", buffer_get_size(bf), ks_oldsize_violation ? "!" : "");
 	}
+	if (git.bf != NULL)
+		buffer_getline_free(&git);
 	buffer_free(bf);
 }
 
@@ -286,12 +421,16 @@ main(void)
 		toks = calloc(maxtoks, sizeof(*toks));
 		for (t = strtok_r(line, " \n", &save); t != NULL; t = strtok_r(NULL, " \n", &save))
 			toks[ntoks++] = t;
-		if (ntoks >= 3 && strcmp(toks[0], "vec") == 0)
-			vec_seq((size_t)strtoull(toks[1], NULL, 10), toks + 3, ntoks - 3);
-		else if (ntoks >= 3 && strcmp(toks[0], "buf") == 0)
-			buf_seq((size_t)strtoull(toks[1], NULL, 10), toks + 3, ntoks - 3);
+		if (ntoks >= 4 && (strcmp(toks[0], "vec") == 0 || strcmp(toks[0], "buf") == 0)) {
+			ks_strict = toks[2][0] == 's';
+			ks_parse_alloc(toks[2]);
+			if (toks[0][0] == 'v')
+				vec_seq((size_t)strtoull(toks[1], NULL, 10), toks + 4, ntoks - 4);
+			else
+				buf_seq((size_t)strtoull(toks[1], NULL, 10), toks + 4, ntoks - 4);
+		}
 #ifdef KS_WITH_MAP
-		else if (ntoks >= 2 && strcmp(toks[0], "map") == 0)
+		else if (ntoks >= 3 && strcmp(toks[0], "map") == 0)
 			map_seq(toks + 1, ntoks - 1);
 #endif
 		else
